@@ -218,6 +218,9 @@ def check(s):
         s.ob("C13.6", f"{ci.name}.unwrapped", "unwrapped" not in ci.methods, "no wrapper (state) overrides `unwrapped`", P.loc(ci.module, ci.node), key="unwrapped-override")
     # ---------------------------------------------------------------- C13.7 adapters
     check_adapters(s)
+    from .util import fields_initialised
+    fields_initialised(s, "C13.3", [c for m_ in sorted(P.modules.values(), key=lambda m__: m__.name) if m_.name.startswith(("lerax.wrapper", "lerax.compatibility")) for c in m_.classes.values()],
+                       necessary_for="every wrapper can be constructed around an environment")
     for r_, n in (("C13.1", 95), ("C13.2", 14), ("C13.3", 11), ("C13.4", 4), ("C13.5", 15), ("C13.6", 15), ("C13.7", 14)):
         s.floor(r_, n)
 
